@@ -230,6 +230,15 @@ impl Cfg {
         }
         b.build()
     }
+    /// same, with an explicit encoding (`-E label`): every input is transcoded from it, mark or no mark
+    pub fn searcher_enc(&self, label: &str, mmap: bool) -> Searcher {
+        let mut b = self.builder();
+        b.bom_sniffing(true).encoding(Some(grep_searcher::Encoding::new(label).expect("encoding label")));
+        if mmap {
+            b.memory_map(unsafe { MmapChoice::auto() });
+        }
+        b.build()
+    }
     /// same, with memory maps enabled (used by the path strategy)
     pub fn searcher_mmap(&self) -> Searcher {
         let mut b = self.builder();
